@@ -7,6 +7,11 @@ VERIF = os.path.dirname(os.path.dirname(os.path.abspath(__file__)))
 
 # id -> (level, technique, level text, level note, design ref)
 CLAIMED = {
+    "C33": ("exploration",
+            "deterministic simulation: macro-generated async proxy (task) and blocking proxy (simulator-driven real thread) against the macro-generated interface over a pair of real connections; typed model of the handlers",
+            "An async proxy on a task and a blocking proxy on a baton thread call every method of the corpus interface with seeded values, read and write its properties and receive its signal, under seeded schedules and read splits. Results, handler-side argument values, property read-after-write and both signal streams must match a typed model.",
+            "One hand-written interface/proxy pair: the space of interface definitions (the 'programs' quantifier) is not generated; this check contributes schedules, splits and the blocking wrapper.",
+            "DESIGN.md §3 C33"),
     "C25": ("exploration",
             "deterministic simulation: a real tracking client (snapshot + ordered signal replay) against at/remove histories incl. (re)registering the ObjectManager, with an operation racing the snapshot",
             "A real client takes GetManagedObjects while a server operation may run concurrently, then applies the InterfacesAdded/Removed signals it received since, in order and idempotently - the weakest client that could possibly work. After every further operation its view must equal a fresh listing (properties included).",
